@@ -207,6 +207,33 @@ def generate(rng, tier, pre=None):
                 A("ecies.parse", ["42494532" + pub(b0) + "+l:%d:%d" % (rng.randrange(10 ** 6), n - 37), flag])
                 A("ecies.parse", ["42494531" + pub(b0, False)[:66] + "+l:%d:%d" % (rng.randrange(10 ** 6), n - 37), flag])
 
+    # every length 0..600 with the right magic (and, with the key flag, a valid key where it fits): the length guard and the
+    # three offsets, against the independent split of Spec/Bie1.v
+    for n in range(0, 601):
+        A("ecies.parse", ["42494531+l:%d:%d" % (n + 7, n - 4) if n >= 4 else "42494531"[:2 * n], "0"])
+        if quick and n > 110 and n % 5 != 0:
+            continue                      # with the key flag each case costs three point decompressions
+        if n >= 37:
+            A("ecies.parse", ["42494531" + pub(b0) + "+l:%d:%d" % (n + 9, n - 37), "1"])
+        else:
+            A("ecies.parse", [("42494531" + pub(b0))[:2 * n], "1"])
+
+    # serialise -> parse -> decrypt over message lengths 0..528 at block granularity (every residue of the wire length
+    # modulo 256), both modes; one ECDH per direction per case
+    prog = [(0, 16, 34), (15, 16, 33), (1, 16, 33)] if quick else [(0, 1, 530)]
+    for excl in (0, 1):
+        for (st, sp, cnt) in prog:
+            i = 0
+            while i < cnt:
+                c = min(8, cnt - i)
+                A("ecies.sweep", [kh(a0), kh(b0), str(excl), str(rng.randrange(10 ** 6)), str(st + sp * i), str(sp), str(c)])
+                i += c
+
+    # the object returned by encrypt, used without serialisation: right keys, wrong recipient key, wrong sender key
+    for n in ([0, 16, 33] if quick else [0, 1, 15, 16, 17, 33, 200]):
+        for excl in (0, 1):
+            A("ecies.mem", [kh(a0), pub(b0), kh(b0), pub(a0, rng.random() < 0.5), kh(KEYS[2]), pub(KEYS[3]), msg_desc(rng, n), str(excl)])
+
     # convenience methods and the random-key round trip
     for n in ([0, 16, 40] if quick else [0, 1, 15, 16, 17, 40, 300]):
         A("ecies.self", [kh(rng.choice(KEYS)), str(rng.randrange(2)), msg_desc(rng, n)])
